@@ -329,14 +329,21 @@ def guards_before(f, accept_bb, defs=None, header=None):
     return out
 
 
-def bool_call_guards(f, accept_bb, callee_suffix, defs=None, header=None):
-    """calls to a bool-returning function whose result branches before accept_bb with one edge not reaching it"""
+def bool_call_guards(f, accept_bb, callee_suffix, defs=None, header=None, dominate=True):
+    """calls to a bool-returning function whose result branches before accept_bb with one edge not reaching it.
+    dominate=False also admits guards evaluated only under another condition (`a && guard`): the branch must
+    still be able to reach the accept on one edge and not on the other"""
     defs = defs or Defs(f)
     dom = f.dominators().get(accept_bb, set())
     avoid = {header} if header is not None else set()
     out = []
     for bi, t in calls_to(f, callee_suffix):
         for sb in switch_on(f, place_local(t["d"]), defs):
+            if not dominate and sb != accept_bb and accept_bb in f.reachable_from(sb, avoid=avoid):
+                targets = f.blocks[sb]["t"]["t"]
+                if any(accept_bb not in f.reachable_from(tg, avoid=avoid) and tg != accept_bb for tg in targets):
+                    out.append((bi, t))
+                continue
             if sb in dom and sb != accept_bb:
                 targets = f.blocks[sb]["t"]["t"]
                 if any(accept_bb not in f.reachable_from(tg, avoid=avoid) and tg != accept_bb for tg in targets):
